@@ -117,6 +117,7 @@ def array_roots(a):
 import re as _re
 _LEAF = _re.compile(r'^(.*)\.a(\d+)!(\d+)$')
 _LEN = _re.compile(r'^(.*)\.len!(\d+)$')
+_RAGC = _re.compile(r'^(.*)\.(lens|rows)!(\d+)$')
 _prenex_n = [0]
 
 
@@ -340,6 +341,16 @@ class Inst:
         for ids in groups.values():
             for x in ids[1:]:
                 union(ids[0], x)
+        # lists of arrays: lengths array base.lens!n and rows array base.rows!n+1 of one ragged value
+        self.rag_rows = {}
+        lens_c, rows_c = {}, {}
+        for f in list(forms) + [q.body() for q in self.quants]:
+            for t in subterms(f, lambda x: z3.is_const(x) and z3.is_array(x)):
+                m = _RAGC.match(t.decl().name())
+                if m:
+                    (lens_c if m.group(2) == 'lens' else rows_c)[(m.group(1), int(m.group(3)))] = t.get_id()
+        for (base, n), lid in lens_c.items():
+            self.rag_rows[lid] = rows_c.get((base, n + 1))
         self.list_rep = {k: ids[0] for k, ids in groups.items()}      # (base name, id of the list) -> one of its component arrays
         return find
 
@@ -401,7 +412,12 @@ class Inst:
                 if lin is None:
                     continue
                 k, sg, g = lin
+                # ground array arguments of the pattern must be (aliases of) the ground application's: rpsum(lensA, p) does not match rpsum(lensB, t)
+                fixed = [(p2, set(find(r.get_id()) for r in array_roots(a2))) for p2, a2 in enumerate(t.children())
+                         if p2 != pos and z3.is_array(a2) and not has_var(a2, cache)]
                 for key, gargs in apps.get(t.decl().name(), {}).items():
+                    if any(not (cls & set(find(r.get_id()) for r in array_roots(gargs[p2]))) for p2, cls in fixed):
+                        continue
                     gt = gargs[pos]
                     val = gt if g is None else gt - g
                     if sg == -1:
@@ -434,12 +450,19 @@ class Inst:
                     neg = {z3.Z3_OP_LE: l > r, z3.Z3_OP_GE: l < r, z3.Z3_OP_LT: l >= r, z3.Z3_OP_GT: l <= r}[lit.decl().kind()]
                     guards.append(neg)
         pending_len = []
+        pending_rag = []
         for a in guards:
             if not z3.is_app(a) or a.num_args() != 2:
                 continue
             l, r = a.children()
             k = a.decl().kind()
             for var, other, side in ((l, r, 'L'), (r, l, 'R')):
+                if z3.is_var(var) and z3.is_int(var) and z3.is_select(other) and z3.is_const(other.children()[0]) \
+                        and other.children()[0].get_id() in getattr(self, 'rag_rows', {}):
+                    # a column variable bounded by the length of a row of a list of arrays (j < lens[p]): the columns at which rows of that
+                    # list -- or of a list with the same row lengths -- are read elsewhere
+                    pending_rag.append((z3.get_var_index(var), other.children()[0].get_id()))
+                    continue
                 if not z3.is_var(var) or has_var(other, cache) or not z3.is_int(var):
                     continue
                 vi = z3.get_var_index(var)
@@ -467,6 +490,11 @@ class Inst:
         for vi, rep in pending_len:
             if not cands[vi]:
                 cands[vi].update(class_reads.get(find(rep), {}))
+        for vi, lid in pending_rag:
+            if not cands[vi]:
+                for l2, rid in self.rag_rows.items():
+                    if rid is not None and find(l2) == find(lid):
+                        cands[vi].update(reads.get(('nested', rid), {}))
         if self.must_contain:
             cands = [{k: t for k, t in c.items() if self.mentions(t)} for c in cands]
         return cands
@@ -763,7 +791,10 @@ def prove(hyps, goal, timeout_ms=10000, rounds=5, want_model=False, fallbacks=Tr
         qs.set('random_seed', 0)
         qs.add(subf)
         qs.add(z3.Not(goal))
-        if qs.check() == z3.unsat:
+        rq = qs.check()
+        if TRACE:
+            print('   stage z3(using)', len(subf), rq, round(time.time() - t0, 1), flush=True)
+        if rq == z3.unsat:
             return {'status': 'proved', 'backend': 'z3-quant(using)', 'secs': time.time() - t0, 'n_inst': 0, 'model': None}
     if first is None:
         first = _prove(hyps, goal, timeout_ms, 3, want_model, False)
